@@ -219,7 +219,8 @@ class Unsigned(BitVector):
         elif isinstance(rhs, (int, Integer)):
             result_width = 2 * self.width
             lhs = self.to_int()
-            rhs = int(rhs)
+            # numeric_std converts the integer to the width of the vector operand (truncating)
+            rhs = int(rhs) % 2**self.width
         else:
             return NotImplemented
 
@@ -234,7 +235,7 @@ class Unsigned(BitVector):
         elif isinstance(lhs, (int, Integer)):
             result_width = 2 * self.width
             rhs = self.to_int()
-            lhs = int(lhs)
+            lhs = int(lhs) % 2**self.width
         else:
             return NotImplemented
 
